@@ -14,6 +14,9 @@ func (rn *runner) sweepReq(epName, api, user, plan, method, cid, suffix string, 
 
 // modelledReq sends one request of known shape through judge with its `h` line for the model
 func (rn *runner) modelledReq(epName, api, user, plan, method, cid, suffix string, body *N, mp bool, tag string, undo bool) int {
+	if rn.abort {
+		return -1
+	}
 	path := "/" + api + "/collections"
 	if cid != "" {
 		path += "/" + cid
@@ -162,6 +165,16 @@ func (rn *runner) boundarySweep() {
 			rn.sweepReq("v2Update", "v2", "bob", "TINY", "PUT", "tiny", "/points", Obj("points", Arr(Obj("_id", Str(id), "p", Str(strings.Repeat("s", l))))), true, "point.size")
 		}
 	}
+	// ---- stored vectors: lengths dim-1, dim, dim+1 at top level and under a nested path; nested type check
+	for i, l := range []int{3, 4, 5} {
+		rn.sweepReq("v2Insert", "v2", "alice", "BASIC", "POST", "base1", "/points", Obj("points", Arr(Obj("_id", Str(g.uuid()), "vec", g.vec(l)))), i%2 == 0, "stored.vec.len")
+		rn.sweepReq("v2Insert", "v2", "alice", "BASIC", "POST", "base1", "/points", Obj("points", Arr(Obj("_id", Str(g.uuid()), "geo", Obj("loc", g.vec(l-2))))), i%2 == 1, "stored.nested.vec.len")
+		if id := rn.someKnown("alice/base1"); id != "" {
+			rn.sweepReq("v2Update", "v2", "alice", "BASIC", "PUT", "base1", "/points", Obj("points", Arr(Obj("_id", Str(id), "geo", Obj("loc", g.vec(l-2))))), i%2 == 0, "updated.nested.vec.len")
+		}
+	}
+	rn.sweepReq("v2Insert", "v2", "alice", "BASIC", "POST", "base1", "/points", Obj("points", Arr(Obj("_id", Str(g.uuid()), "meta", Obj("kind", Int(5))))), false, "stored.nested.type")
+	rn.sweepReq("v2Insert", "v2", "alice", "BASIC", "POST", "base1", "/points", Obj("points", Arr(Obj("_id", Str(g.uuid()), "meta", Str("flat")))), true, "stored.nested.notmap")
 	// ---- search
 	leafV := func(mod func(o *N)) *N {
 		o := Obj("vector", g.vec(4), "operator", Str("near"), "searchSize", Int(75), "limit", Int(10))
